@@ -201,6 +201,105 @@ fn t31_extreme(count: u16, ptrs: &[u32], name: &[u8; 3], gates: u16, ws: u8, pre
     body
 }
 
+// ---- deep inputs (isolated) ------------------------------------------------------------------
+
+/// Kinds of message repeated back to back in one long stream. The failing kinds matter as much as
+/// the valid ones: error handling that recurses or accumulates per message only shows on long runs.
+pub const DEEP_KINDS: [&str; 9] = ["status", "t31_basic", "t31_unknown_block_name", "t31_unknown_block_type", "t31_pointer_past_end", "undecoded_type_200", "type_0", "t31_empty", "vcp"];
+
+fn deep_message(kind: usize, pos: usize) -> Vec<u8> {
+    use crate::props::c03::message_bytes;
+    match kind {
+        0 => message_bytes(0, pos),
+        1 => message_bytes(7, pos),
+        2 | 3 | 4 => {
+            // a small radial whose single moment block is broken in one way
+            let (h, mut b) = simple_radial(1, 1 + (pos % 700) as u16, 19000, pos as u32, &[3], 4, None);
+            let last = b.len() - 1;
+            let mut raw = b[last].bytes.clone();
+            match kind {
+                2 => raw[1..4].copy_from_slice(b"XXX"),
+                3 => raw[0] = b'Q',
+                _ => {}
+            }
+            b[last] = Block::raw(raw[0], &[raw[1], raw[2], raw[3]], &raw[4..]);
+            let mut m = t31_message(&MsgHeader::simple(31, 19000, pos as u32), &h, &b, &Layout::default());
+            if kind == 4 {
+                // last pointer far beyond the message
+                let at = 28 + 32 + 4 * last;
+                m[at..at + 4].copy_from_slice(&0x00FF_FFFFu32.to_be_bytes());
+            }
+            // the header's size field states the true length (halfwords after the 12-byte prefix)
+            let hw = ((m.len() - 12) / 2) as u16;
+            m[12..14].copy_from_slice(&hw.to_be_bytes());
+            m
+        }
+        5 => message_bytes(5, pos),
+        6 => {
+            let mut m = message_bytes(3, pos);
+            m[15] = 0;
+            m
+        }
+        7 => message_bytes(6, pos),
+        _ => message_bytes(1, pos),
+    }
+}
+
+/// Child-process side: every deep stream decoded on a thread with the default 2 MiB stack.
+pub fn worker(ctx: &'static Ctx) {
+    let section = std::env::var("VERIF_SECTION").unwrap_or_default();
+    if section != "deep" {
+        machinery("C04 worker: unknown section");
+    }
+    let only: Option<usize> = std::env::var("VERIF_DEEP_KIND").ok().and_then(|k| k.parse().ok());
+    let ns: Vec<usize> = if ctx.tier.thorough() { vec![3_000, 30_000, 300_000] } else { vec![3_000, 30_000] };
+    let mut evals = 0u64;
+    for (k, name) in DEEP_KINDS.iter().enumerate() {
+        if only.map(|o| o != k).unwrap_or(false) {
+            continue;
+        }
+        for &n in &ns {
+            use std::io::Write;
+            println!("SECTION_CASE {k}:{name}:{n}");
+            let _ = std::io::stdout().flush();
+            let one = deep_message(k, 0);
+            let mut stream = Vec::with_capacity(one.len() * n);
+            for i in 0..n {
+                if i < 64 { stream.extend_from_slice(&deep_message(k, i)) } else { stream.extend_from_slice(&one) }
+            }
+            let h = std::thread::Builder::new().spawn(move || guarded(move || dm::decode_messages(&mut std::io::Cursor::new(stream)).map(|v| v.len()).map_err(|_| ())));
+            let r = h.ok().and_then(|h| h.join().ok());
+            evals += 1;
+            match r {
+                Some(Caught::Ret(_)) => {}
+                Some(Caught::Panic(p)) => ctx.fail(&format!("panic:decode_messages:deep_input:{}", panic_class(&p)), || format!("{n} x {name}: {p}"), || json!({"op": "deep", "kind": k, "n": n})),
+                None => ctx.fail("abort:decode_messages:deep_input", || format!("{n} x {name}: decoding thread died"), || json!({"op": "deep", "kind": k, "n": n})),
+            }
+        }
+    }
+    println!("WORKER_RESULT {}", json!({"fails": ctx.export_fails(), "evaluations": evals}));
+}
+
+/// Parent side of the deep-input section.
+fn deep_section(ctx: &Ctx, st: &mut Stats, only: Option<usize>) {
+    let env: Vec<(&str, String)> = only.map(|k| vec![("VERIF_DEEP_KIND", k.to_string())]).unwrap_or_default();
+    match run_isolated("C04", ctx.tier, "deep", &env) {
+        Ok(v) => {
+            ctx.import_fails(&v["fails"]);
+            st.evaluations += v["evaluations"].as_u64().unwrap_or(0);
+            st.count("deep_streams_decoded_in_a_child_process", v["evaluations"].as_u64().unwrap_or(0));
+        }
+        Err((case, how)) => {
+            let kind: usize = case.split(':').next().and_then(|k| k.parse().ok()).unwrap_or(0);
+            ctx.fail(
+                "abort:decode_messages:deep_input",
+                || format!("the process decoding a long stream ({case} = kind:name:messages) on a 2 MiB stack died instead of returning a value or an error: {how}"),
+                || json!({"op": "deep", "kind": kind, "case": case}),
+            );
+        }
+    }
+}
+
 pub fn run(ctx: &'static Ctx) -> (&'static str, Value, Vec<&'static str>) {
     let thorough = ctx.tier.thorough();
     {
@@ -532,7 +631,9 @@ pub fn run(ctx: &'static Ctx) -> (&'static str, Value, Vec<&'static str>) {
         },
         |i| format!("{}({} bytes)", ENTRY_NAMES[hin[i].0], hin[i].2.len()),
     );
-    let mut stats = sa.merge(sb).merge(sc).merge(sd).merge(se).merge(s1).merge(s2).merge(sh);
+    let mut sdeep = Stats::new();
+    deep_section(ctx, &mut sdeep, None);
+    let mut stats = sa.merge(sb).merge(sc).merge(sd).merge(se).merge(s1).merge(s2).merge(sh).merge(sdeep);
     stats.sample(3, || json!({"entry": "decode_digital_radar_data", "origin": "field extremes", "bytes_hex": hex(&ext[ext.len() / 2][..64.min(ext[ext.len() / 2].len())])}));
     stats.sample(3, || json!({"entry": "decode_messages", "origin": "prefix", "stream": ["t31_basic", "status"], "cut": 1234}));
     let cov = stats.coverage(
@@ -552,6 +653,16 @@ pub fn run(ctx: &'static Ctx) -> (&'static str, Value, Vec<&'static str>) {
 }
 
 pub fn replay(ctx: &'static Ctx, case: &Value) {
+    if case["op"].as_str() == Some("deep") {
+        let mut st = Stats::new();
+        deep_section(ctx, &mut st, case["kind"].as_u64().map(|k| k as usize));
+        println!("replay C04 deep input kind {:?}: {} streams decoded", case["kind"], st.evaluations);
+        return;
+    }
+    if case["op"].as_str() == Some("history") {
+        let _ = run(ctx);
+        return;
+    }
     let entry = ENTRY_NAMES.iter().position(|e| Some(*e) == case["entry"].as_str()).unwrap_or(0);
     let bytes = unhex(case["bytes_hex"].as_str().unwrap_or(""));
     let mut st = Stats::new();
